@@ -341,7 +341,62 @@ def main(tier, seed):
             rep.inconclusive_("cross-check", f"{bad} z3/cvc5 disagreements")
     rep.add_queries(sess)
     rep.samples = [o["name"] for o in rep.obligations if o["kind"].startswith("obligation")][:12]
+    _loop_wiring(rep, tier, seed)
     return rep.finish()
+
+
+def _loop_wiring(rep, tier, seed):
+    """E2 / F-LOOP: the training loops hand every update routine the component it is documented to train (and its own
+    optimizer), so that 'changes only the trained component' carries over from the routine to the loop."""
+    from props import loops as L
+    from props.e2common import E2Report
+    e2 = E2Report(PROP, tier, seed)
+    e2.r = rep
+
+    def mrq(ctx):
+        tr = L.run_mrq(ctx, 3, 0, symbolic=())
+        pwe, q = tr.cfg["policy_with_encoder"], tr.cfg["q"]
+        pt, qt = tr.cfg["policy_with_encoder_target"], tr.cfg["q_target"]
+        ue = tr.w.of("update_encoder")
+        uc = tr.w.of("update_critic_and_policy")
+        ctx.check(len(ue) >= 1 and len(uc) >= 1, "loop-reaches-its-update-routines")
+        for (_, _, p) in ue:
+            a = p["args"]
+            ctx.check(a[0] is pwe.encoder and a[1] is pt.encoder, "mrq:encoder-update-trains-the-online-encoder-against-the-target-encoder")
+        for (_, _, p) in uc:
+            a = p["args"]
+            ctx.check(a[0] is q and a[1] is qt and a[3] is pwe.policy and a[5] is pwe.encoder and a[6] is pt.encoder, "mrq:critic/policy-update-receives-online-q,-target-q,-online-policy-and-both-encoders-in-place")
+    e2.run("wiring:train_mrq", mrq, fn="rl_blox.algorithm.mrq.train_mrq", site_of=lambda label: f"train_mrq:{label}")
+
+    def td7(ctx):
+        tr = L.run_td7(ctx, 3, 0, symbolic=(), use_checkpoints=False)
+        emb, actor, critic = tr.cfg["embedding"], tr.cfg["actor"], tr.cfg["critic"]
+        res = tr.result
+        for (_, _, p) in tr.w.of("update_sale"):
+            ctx.check(p["args"][0] is emb, "td7:representation-update-trains-the-online-embedding")
+        for (_, _, p) in tr.w.of("update_critic"):
+            a = p["args"]
+            ctx.check(a[0] is res.fixed_embedding and a[1] is res.fixed_embedding_target and a[2] is critic and a[3] is res.critic_target,
+                      "td7:critic-update-gets-fixed-embedding,-fixed-target-embedding,-critic,-target-critic")
+        for (_, _, p) in tr.w.of("update_actor"):
+            a = p["args"]
+            ctx.check(a[0].actor is actor and a[0].embedding is res.fixed_embedding and a[2] is critic, "td7:actor-update-trains-the-online-actor-with-the-fixed-embedding")
+        ctx.check(len(tr.w.of("update_critic")) >= 1, "loop-reaches-its-update-routines")
+    e2.run("wiring:train_td7", td7, fn="rl_blox.algorithm.td7.train_td7/_train_step", site_of=lambda label: f"train_td7:{label}")
+
+    def cont(which):
+        def prog(ctx):
+            tr = L.run_continuous(ctx, which, 2, 0, symbolic=())
+            pol, q = tr.cfg["policy"], tr.cfg["q"]
+            for (_, _, p) in tr.w.of("train_step"):
+                a = p["args"]  # (loss, q_optimizer, q, q_target, ...)
+                ctx.check(a[2] is q and a[3] is tr.cfg["q_target"], f"{which}:critic-step-trains-the-online-critic-against-its-target")
+            for (_, _, p) in tr.w.of("update_actor"):
+                ctx.check(p["args"][0] is pol and p["args"][2] is q, f"{which}:actor-step-trains-the-online-policy-with-the-online-critic")
+            ctx.check(len(tr.w.of("train_step")) >= 1, "loop-reaches-its-update-routines")
+        return prog
+    for which in ("ddpg", "td3", "td3_lap", "sac"):
+        e2.run(f"wiring:train_{which}", cont(which), fn=f"rl_blox.algorithm.{which}", site_of=lambda label, which=which: f"train_{which}:{label}")
 
 
 def replay(path):
